@@ -12,7 +12,7 @@ cd $W
 mkdir -p $W/_out
 sed "s#/tmp/mut/C[0-9][0-9]#$W#g" "$DEMO" > $W/_out/_demo.py   # same depth as where the author ran it (paths relative to the file keep working)
 PASS0=$(PYTHONPATH=$W timeout 300 /venv/bin/python _out/_demo.py >/dev/null 2>&1; echo $?)
-git apply "$PATCH" || { echo "RESULT patch-does-not-apply"; exit 3; }
+git apply "$PATCH" 2>/dev/null || git apply --3way "$PATCH" || { echo "RESULT patch-does-not-apply"; exit 3; }
 TESTS=$(timeout 600 /venv/bin/python -m pytest -q -p no:cacheprovider 2>&1 | tail -1)
 FAIL1=$(PYTHONPATH=$W timeout 300 /venv/bin/python _out/_demo.py >/dev/null 2>&1; echo $?)
 echo "demo on clean tree: exit $PASS0 (want 0); demo with change: exit $FAIL1 (want 1); tests with change: $TESTS"
